@@ -317,11 +317,16 @@ def gen_hist_case(rng, maxlen, unsafe=False):
                 t2 = sim.lists[sim.objs[j][0]]
                 if not bits_ok([B._OPS[f](x, y) for x, y in zip(t, t2)]):
                     continue
+                if rng.random() < 0.5:
+                    i, j = j, i                                   # either operand may be the odd one
+                    ob, t = sim.objs[i], sim.lists[sim.objs[i][0]]
                 a = push({"op": "binary", "f": f, "i": i, "j": j})
             elif kind == "scalar":
                 f = rng.choice(["add", "sub", "mul", "div"])
                 refl = rng.random() < 0.4
                 x = F(2) ** rng.randint(-2, 3) * rng.choice([1, -1]) if f == "div" else small(rng)
+                if rng.random() < 0.2:                            # the operand that changes nothing
+                    x = F(0) if f in ("add", "sub") else F(1)
                 if f == "div" and refl and not all(d != 0 and B.is_dyadic(x / d, 20) for d in t):
                     continue
                 tt = "i" if x.denominator == 1 and rng.random() < 0.5 else "f"
@@ -342,6 +347,8 @@ def gen_hist_case(rng, maxlen, unsafe=False):
                     if r3 < 0.6:                                  # make the largest magnitude a power of two
                         k = rng.randrange(len(t))
                         v = F(2) ** max(0, int(abs(m)).bit_length()) * rng.choice([1, -1])
+                        if rng.random() < 0.4 and all(abs(d) <= 1 for j, d in enumerate(t) if j != k):
+                            v = F(rng.choice([1, -1]))            # already normalized
                         push({"op": "setItem", "l": ob[0], "k": k, "v": {"v": enc(v), "t": "f"}})
                         for s_ in [s_ for s_ in open_reads if sim.oscs[s_][0] == ob[0]]:
                             del open_reads[s_]
@@ -383,9 +390,12 @@ def gen_hist_case(rng, maxlen, unsafe=False):
                 else:
                     use(res)
             else:                                                 # a failing step: nothing may have changed
-                push({"op": "table", "i": i})
-                if ops[-2]["op"] == "binary":
-                    push({"op": "table", "i": ops[-2]["j"]})
+                failed = ops[-1]
+                for who in [i] + ([failed["j"]] if failed["op"] == "binary" else []):
+                    push({"op": "table", "i": who})
+                    push({"op": "len", "i": who})
+                    if rng.random() < 0.4:
+                        use(who, rng.choice(["call", "getitem"]))
         elif r < 0.78 and open_reads:                             # an older stream, read after whatever happened
             s = rng.choice(sorted(open_reads))
             k = rng.randint(1, open_reads[s] + 1)
@@ -570,8 +580,14 @@ def first_diff(c, io, drv, side):
 
 def compare(c, io, drv):
     res = []
+    ts = first_diff(c, io, drv, "spec")
     for side, kind in (("model", "model"), ("spec", "spec")):
         t = first_diff(c, io, drv, side)
+        if side == "model" and t is not None and ts is None and resized(c["ops"], t):
+            # after an in-place resize the model (the code as written today, with its cached length,
+            # defect D16) and the spec differ; the code as repaired follows the spec: only the spec
+            # decides the property there
+            continue
         if t is not None:
             res.append((kind, "TableLookup history, step %d %s: impl=%s %s=%s" % (
                 t, json.dumps(c["ops"][t]), json.dumps(io["obs"][t]) if io.get("obs") else io, side, json.dumps(drv[side][t]))))
@@ -595,6 +611,8 @@ def context(ops, t):
             hist.append((u, p["op"], {j for j, x in enumerate(sim.objs) if x[0] == p["l"]}))
         elif a[1] and p["op"] in ALLOC_OPS:
             hist.append((u, "operator-result", {len(sim.objs) - 1}))
+        elif p["op"] in ALLOC_OPS:
+            hist.append((u, "failed-" + p["op"], {p["i"], p.get("j", p["i"])}))
     if o["op"] == "read":
         i, since = called_at.get(o["s"], (None, 0))
         later = [h for h in hist if h[0] > since and i in h[2]]
@@ -680,12 +698,41 @@ def drop_op(ops, k):
     return None if sim2.bad else out
 
 
+def bypass_op(ops, k):
+    """ops without the operator step k, later references to its result redirected to its operand"""
+    o = ops[k]
+    if o["op"] not in ALLOC_OPS:
+        return None
+    sim = Sim()
+    for p in ops[:k]:
+        sim.step(p)
+    nl, no = len(sim.lists), len(sim.objs)
+    if not (0 <= o["i"] < no):
+        return None
+    src_l = sim.objs[o["i"]][0]
+    if sim.step(o) != (1, 1, 0):
+        return None
+    out = list(ops[:k + 1])
+    for p in ops[k + 1:]:
+        d = dict(p)
+        for f in ("i", "j"):
+            if d.get(f) == no and f in d and isinstance(d[f], int):
+                d[f] = o["i"]
+        if d.get("l") == nl and p["op"] != "newList":
+            d["l"] = src_l
+        out.append(d)
+    return drop_op(out, k)
+
+
 def shrink(c):
     ops = c["ops"]
     if len(ops) > 1:
         yield dict(c, ops=ops[:-1])
     for k in range(len(ops) - 1, -1, -1):
         r = drop_op(ops, k)
+        if r is not None and r:
+            yield dict(c, ops=r)
+        r = bypass_op(ops, k)
         if r is not None and r:
             yield dict(c, ops=r)
     for k, o in enumerate(ops):
